@@ -329,6 +329,72 @@ def o125(ctx):
                         "(replicated border) the core of a solid touching a face stays 1, with a zero border it is averaged with zeros", c, m)
 
 
+def o127(ctx):
+    """soft edge, the numbers of the statement: "a gain that depends on the integer frequency radius: 1 inside cutoff-4*sigma-1, 0 outside
+    cutoff+4*sigma+1, non-increasing in between".  The extracted soft gain is gaussian_blur(<indicator of the lattice ball>, sigma); the indicator
+    is evaluated on a complete lattice (closed form from the source), the blur is the library's separable kernel (trusted base: weights
+    exp(-j^2 / 2 sigma^2) normalised, half-width int(truncate * sigma + 0.5) per AXIS -- a cube, not a ball).  Sizes are chosen so that the blurred
+    edge stays away from the faces of the box (the border mode does not enter)."""
+    q = CMAP + "lowpass"
+    m, fn = ctx.prog.func(q)
+    ctx.touched(q, "cryomask.spherical_mask", "cryomask.add_gaussian")
+    it, r = run_filter(ctx, "lowpass", P("sigma"))
+    f = r.ret
+    g = getattr(f, "gain", None)
+    if not isinstance(f, imgdom.Filtered) or g is None or f.axes is None or not (g.op == "call" and g.args[0] == "gaussian_blur" and len(g.args) == 3 and g.args[2] == sym("sigma")):
+        raise Unsupported("lowpass (soft edge): the gain is not the Gaussian blur (requested sigma) of one mask", fn)
+    ind = g.args[1]
+    worst_spread, worst_bound = None, None
+    for N, c, sg in ((32, 10, 1.0), (40, 11, 2.0), (48, 14, 2.0)):
+        w = int(4.0 * sg + 0.5)
+        if c + w + 1 >= N // 2:
+            continue
+        grids = np.meshgrid(*[np.arange(N)] * 3, indexing="ij")
+        env = {"__salt__": 0.1, "r": float(c), "sigma": sg}
+        for A, G_ in zip(f.axes, grids):
+            env[A.sym.args[0]] = G_.astype(float)
+            for nm in tm.symbols(A.n):
+                env[nm] = float(N)
+        solid = np.asarray(tm.evaluate(ind, env), dtype=float)
+        if solid.shape != (N, N, N) or not np.isin(solid, (0.0, 1.0)).all():
+            raise Unsupported("lowpass (soft edge): the blurred mask is not a 0/1 function of the lattice point", fn)
+        k1 = np.exp(-0.5 * (np.arange(-w, w + 1) / sg) ** 2)
+        k1 /= k1.sum()
+        G = solid
+        for ax in range(3):  # separable kernel; the lattice is periodic in this layout and the edge is far from the faces
+            G = sum(k1[j + w] * np.roll(G, j, axis=ax) for j in range(-w, w + 1))
+        fr_ = np.fft.fftfreq(N) * N
+        r2 = np.rint(fr_[:, None, None] ** 2 + fr_[None, :, None] ** 2 + fr_[None, None, :] ** 2).astype(int)
+        ctx.count(1, {"box": N, "cutoff": c, "sigma": sg, "kernel half-width per axis": w})
+        # (a) one gain per integer radius
+        order = np.argsort(r2, axis=None)
+        r2s, gs = r2.ravel()[order], G.ravel()[order]
+        starts = np.flatnonzero(np.r_[True, r2s[1:] != r2s[:-1]])
+        gmin, gmax = np.minimum.reduceat(gs, starts), np.maximum.reduceat(gs, starts)
+        i_ = int(np.argmax(gmax - gmin))
+        if worst_spread is None or gmax[i_] - gmin[i_] > worst_spread[0]:
+            worst_spread = (float(gmax[i_] - gmin[i_]), N, c, sg, int(r2s[starts[i_]]), float(gmin[i_]), float(gmax[i_]))
+        # (b) the band: exactly 1 inside cutoff - 4 sigma - 1, exactly 0 outside cutoff + 4 sigma + 1
+        rad = np.sqrt(r2)
+        inner, outer = rad <= c - 4 * sg - 1, rad >= c + 4 * sg + 1
+        dev = max(float((1 - G[inner]).max()) if inner.any() else 0.0, float(G[outer].max()) if outer.any() else 0.0)
+        if worst_bound is None or dev > worst_bound[0]:
+            worst_bound = (dev, N, c, sg)
+    if worst_spread is None:
+        raise Unsupported("lowpass (soft edge): no lattice evaluated", fn)
+    ctx.count(2, {"largest spread of the gain at one integer radius": worst_spread, "largest deviation from 1 / 0 outside the band": worst_bound})
+    if worst_spread[0] > 1e-3:
+        d, N, c, sg, rr, lo, hi = worst_spread
+        ctx.finding(q, "soft edge: gain at equal integer radius", f"with a Gaussian edge the gain is not a function of the integer frequency radius: the transfer function "
+                    f"is a voxelised ball blurred with a separable kernel, and lattice points of equal radius in different directions see different neighbourhoods -- box {N}, "
+                    f"cutoff {c}, sigma {sg:g}: frequencies with |k|^2 = {rr} get gains between {lo:.4f} and {hi:.4f} (so the gain is not non-increasing in the radius either)", fn, m)
+    if worst_bound[0] > 1e-9:
+        d, N, c, sg = worst_bound
+        ctx.finding(q, "soft edge: bounds of the transition band", f"the kernel's support is a cube of half-width {int(4 * sg + 0.5)} per axis, whose corners lie {int(4 * sg + 0.5)}*sqrt(3) from "
+                    f"its centre: frequencies inside cutoff - 4 sigma - 1 still see voxels outside the ball (and the other way round) -- box {N}, cutoff {c}, sigma {sg:g}: the gain "
+                    f"deviates from 1 / 0 by {d:.2e} outside the band", fn, m)
+
+
 def _obligations():
     return [
         Obligation("O12.9", "map files given by path are read as written: same axis permutation on both sides, conversion only when asked (shared with C11)", lambda ctx: (_c11.o111(ctx), _c11.o115(ctx)), floor=37),
@@ -337,6 +403,7 @@ def _obligations():
         Obligation("O12.3", "resolution2pixels = round(edge*px/res), pixels2resolution, get_filter_radius and cutoff plumbing", o123, floor=7),
         Obligation("O12.6", "default centre of the transfer sphere = box // 2 per axis (get_correct_format); radius passed through preprocess_params unchanged "
                             "unless the blur goes outwards", lambda ctx: (maskmodel.o_get_correct_format(ctx), maskmodel.o_preprocess_params(ctx)), floor=13),
+        Obligation("O12.7", "soft edge, the statement's numbers: one gain per integer radius, 1 / 0 outside the 4-sigma band (lattice evaluation of the extracted gain)", o127, floor=5),
         Obligation("O12.5", "Gaussian edge runs with the installed 4-sigma truncation and the requested sigma", o125, floor=2),
     ]
 
